@@ -8,15 +8,7 @@ verus! {
 //@INCLUDE compiler_convert_assumed.rs
 //@INCLUDE genpost_lemmas.rs
 
-/// meaning of a source operator (property-level table)
-pub open spec fn operator_sem(o: Operator) -> int {
-    match o {
-        Operator::Add => op_add(), Operator::Subtract => op_sub(), Operator::Multiply => op_mul(), Operator::Divide => op_div(), Operator::Modulo => op_rem(),
-        Operator::Lt => op_lt(), Operator::Lte => op_lte(), Operator::Gt => op_gt(), Operator::Gte => op_gte(), Operator::Eq => op_eq(), Operator::Neq => op_neq(),
-        Operator::And => op_and(), Operator::Or => op_or(),
-        _ => op_none(),
-    }
-}
+// operator_sem (meaning of a source operator, property-level table): prelude_compiler.rs
 
 /// what each operator computes on two in-range integers, as mathematical integers / truth values encoded 0/1
 /// (this is exactly the content of the C06 contracts O06.1, O06.2 (Verus) and O06.3 (Kani))
